@@ -15,6 +15,7 @@ from fontTools.feaLib.error import FeatureLibError, IncludedFeaNotFound
 from fontTools.feaLib.parser import Parser
 from fontTools.misc.loggingTools import Timer
 
+from ufo2ft import _verif
 from ufo2ft.constants import MTI_FEATURES_PREFIX
 from ufo2ft.featureWriters import (
     CursFeatureWriter,
@@ -317,6 +318,9 @@ class FeatureCompiler(BaseFeatureCompiler):
                         if path is None:
                             self._write_temporary_feature_file(featureFile.asFea())
                         raise
+                    _verif.emit(
+                        "Writer", writer=writer, font=self.ufo, feaFile=featureFile, compiler=self
+                    )
 
                 # stringify AST to get correct line numbers in error messages
                 self.features = featureFile.asFea()
@@ -437,6 +441,13 @@ class VariableFeatureCompiler(FeatureCompiler):
 
             for writer in self.featureWriters:
                 writer.write(self.designspace, featureFile, compiler=self)
+                _verif.emit(
+                    "Writer",
+                    writer=writer,
+                    font=self.designspace,
+                    feaFile=featureFile,
+                    compiler=self,
+                )
 
             # stringify AST to get correct line numbers in error messages
             self.features = featureFile.asFea()
